@@ -883,6 +883,12 @@ void TasmanianSparseGrid::setAnisotropicRefinement(TypeDepth type, int min_growt
     if ((output < -1) || (output >= outs)) throw std::invalid_argument("ERROR: calling setAnisotropicRefinement() with invalid output");
     if ((!level_limits.empty()) && (level_limits.size() != (size_t) dims)) throw std::invalid_argument("ERROR: setAnisotropicRefinement() requires level_limits with either 0 or dimenions entries");
 
+    // validate the grid type before the level limits are stored, a rejected call must not modify the grid
+    if (isGlobal() && OneDimensionalMeta::isNonNested(get<GridGlobal>()->getRule()))
+        throw std::runtime_error("ERROR: setAnisotropicRefinement() called for a global grid with non-nested rule");
+    if (!isSequence() && !isGlobal() && !isFourier())
+        throw std::runtime_error("ERROR: setAnisotropicRefinement() called for a grid that is neither Sequence, nor Global with a sequence rule, nor Fourier");
+
     if (!level_limits.empty()) llimits = level_limits;
     if (isSequence()){
         get<GridSequence>()->setAnisotropicRefinement(type, min_growth, output, llimits);
@@ -964,15 +970,16 @@ void TasmanianSparseGrid::setSurplusRefinement(double tolerance, TypeRefinement 
         throw std::runtime_error("ERROR: setSurplusRefinement(double, TypeRefinement) called for a Fourier grid.");
     if (tolerance < 0.0) throw std::invalid_argument("ERROR: calling setSurplusRefinement() with invalid tolerance (must be non-negative)");
 
-    if (level_limits != 0) // can only happen if calling directly with int*, the vector version always passes null for level_limits
-        llimits = Utils::copyArray(level_limits, dims); // if level_limits is null, we want to keep llimits unchanged
-
-    if (isLocalPolynomial()){
-        get<GridLocalPolynomial>()->setSurplusRefinement(tolerance, criteria, output, llimits, scale_correction);
-    }else if (isWavelet()){
-        get<GridWavelet>()->setSurplusRefinement(tolerance, criteria, output, llimits);
-    }else{
-        setSurplusRefinement(tolerance, output, std::vector<int>()); // new level limits are already set above
+    if (isLocalPolynomial() || isWavelet()){
+        if (level_limits != 0)
+            llimits = Utils::copyArray(level_limits, dims); // if level_limits is null, we want to keep llimits unchanged
+        if (isLocalPolynomial()){
+            get<GridLocalPolynomial>()->setSurplusRefinement(tolerance, criteria, output, llimits, scale_correction);
+        }else{
+            get<GridWavelet>()->setSurplusRefinement(tolerance, criteria, output, llimits);
+        }
+    }else{ // the other overload checks the grid type before it stores the new limits
+        setSurplusRefinement(tolerance, output, (level_limits != 0) ? Utils::copyArray(level_limits, dims) : std::vector<int>());
     }
 }
 void TasmanianSparseGrid::setSurplusRefinement(double tolerance, TypeRefinement criteria, int output, const std::vector<int> &level_limits, const std::vector<double> &scale_correction){
